@@ -176,8 +176,100 @@ func implC12(line string) string {
 		r, _ := o.Get("0")
 		ob, _ := o.Get("1")
 		return arrTok(r) + "|" + arrTok(ob)
+	case "sset":
+		vm.Set("v", h.HexF64(f[1]))
+		var b strings.Builder
+		b.WriteString("var d = new Date(v); var R = [];")
+		for i, st := range f[2:] {
+			k := strings.IndexByte(st, ':')
+			name := st[:k]
+			var toks []string
+			if st[k+1:] != "" {
+				toks = strings.Split(st[k+1:], ",")
+			}
+			args := scriptedArgs(vm, "s"+strconv.Itoa(i)+"_", toks)
+			call := "d.setUTC" + name + "(" + args + ")"
+			if name == "time" {
+				call = "d.setTime(" + args + ")"
+			}
+			b.WriteString("L = []; try { var r = " + call + "; R.push([L, r]); } catch (e) { R.push([L, e === BOOM ? 'throw' : 'other:' + e]); }")
+		}
+		b.WriteString("[R, " + obsJS + "]")
+		v, e := run(scriptedPrelude + b.String())
+		if e != "" {
+			return e
+		}
+		o := v.Object()
+		r, _ := o.Get("0")
+		ob, _ := o.Get("1")
+		ro := r.Object()
+		lv, _ := ro.Get("length")
+		n, _ := lv.ToInteger()
+		parts := make([]string, 0, n)
+		for i := 0; i < int(n); i++ {
+			e, _ := ro.Get(strconv.Itoa(i))
+			parts = append(parts, stepTok(e))
+		}
+		return strings.Join(parts, ",") + "|" + arrTok(ob)
+	case "sutc":
+		args := scriptedArgs(vm, "a", f[1:])
+		v, e := run(scriptedPrelude + "var R; L = []; try { R = [L, Date.UTC(" + args + ")]; } catch (e) { R = [L, e === BOOM ? 'throw' : 'other:' + e]; } R")
+		if e != "" {
+			return e
+		}
+		return stepTok(v)
 	}
 	return "bad-op"
+}
+
+const scriptedPrelude = `var L = []; var BOOM = {}; function O(i, x) { return {valueOf: function () { L.push(i); return x; }}; } function T(i) { return {valueOf: function () { L.push(i); throw BOOM; }}; } `
+
+// scriptedArgs binds the numbers and returns the argument list source: `n<hex>` number, `o<hex>` logging object, `t` thrower.
+func scriptedArgs(vm *otto.Otto, prefix string, toks []string) string {
+	parts := make([]string, len(toks))
+	for i, t := range toks {
+		name := prefix + strconv.Itoa(i)
+		switch t[0] {
+		case 'n':
+			vm.Set(name, h.HexF64(t[1:]))
+			parts[i] = name
+		case 'o':
+			vm.Set(name, h.HexF64(t[1:]))
+			parts[i] = "O(" + strconv.Itoa(i) + "," + name + ")"
+		default:
+			parts[i] = "T(" + strconv.Itoa(i) + ")"
+		}
+	}
+	return strings.Join(parts, ",")
+}
+
+// stepTok renders [log, result] as `<log>:<value | throw>`.
+func stepTok(v otto.Value) string {
+	o := v.Object()
+	if o == nil {
+		return "notarray"
+	}
+	lg, _ := o.Get("0")
+	res, _ := o.Get("1")
+	ls := "-"
+	if lo := lg.Object(); lo != nil {
+		lv, _ := lo.Get("length")
+		n, _ := lv.ToInteger()
+		if n > 0 {
+			parts := make([]string, 0, n)
+			for i := 0; i < int(n); i++ {
+				e, _ := lo.Get(strconv.Itoa(i))
+				k, _ := e.ToInteger()
+				parts = append(parts, strconv.FormatInt(k, 10))
+			}
+			ls = strings.Join(parts, ".")
+		}
+	}
+	if res.IsString() {
+		s, _ := res.ToString()
+		return ls + ":" + strings.ReplaceAll(s, " ", "_")
+	}
+	return ls + ":" + numTok(res)
 }
 
 // ---------------------------------------------------------------- generators
@@ -342,6 +434,69 @@ func genC12(c *h.Ctx) {
 			op = "ctor"
 		}
 		c.Add(op+" "+strings.Join(parts, " "), fmt.Sprintf("%s:n=%d", op, n))
+	}
+	// scripted arguments: which ToNumber conversions happen, in which order, and what a throwing one leaves behind
+	scripted := func(x float64) string {
+		switch r.Intn(10) {
+		case 0:
+			return "t"
+		case 1, 2, 3, 4:
+			return "o" + hx(x)
+		default:
+			return "n" + hx(x)
+		}
+	}
+	sfield := func(idx int) float64 {
+		if r.Chance(18) {
+			return []float64{math.NaN(), math.Inf(1), math.Inf(-1)}[r.Intn(3)]
+		}
+		return randField(r, idx)
+	}
+	for i := 0; i < c.N(6000, 300000); i++ {
+		n := 2 + r.Intn(7)
+		parts := make([]string, n)
+		for j := range parts {
+			parts[j] = scripted(sfield(j))
+		}
+		c.Add("sutc "+strings.Join(parts, " "), fmt.Sprintf("sutc:n=%d", n))
+	}
+	slimits := []int{1, 2, 3, 4, 1, 2, 3, 1}
+	sfieldIdx := [][]int{{6}, {5, 6}, {4, 5, 6}, {3, 4, 5, 6}, {2}, {1, 2}, {0, 1, 2}, {}}
+	for i := 0; i < c.N(12000, 600000); i++ {
+		var b strings.Builder
+		t0 := float64(int64(r.U64()%6311433600000) - 2208988800000)
+		if r.Chance(30) {
+			t0 = math.NaN()
+		}
+		b.WriteString("sset " + hx(t0))
+		steps := 1 + r.Intn(3)
+		for s := 0; s < steps; s++ {
+			k := r.Intn(8)
+			na := 1 + r.Intn(slimits[k])
+			if r.Chance(10) {
+				na = slimits[k] + 1
+			}
+			if r.Chance(4) {
+				na = 0
+			}
+			var as []string
+			for j := 0; j < na; j++ {
+				switch {
+				case k == 7:
+					x := float64(int64(r.U64()%6311433600000) - 2208988800000)
+					if r.Chance(15) {
+						x = math.NaN()
+					}
+					as = append(as, scripted(x))
+				case j < len(sfieldIdx[k]):
+					as = append(as, scripted(sfield(sfieldIdx[k][j])))
+				default:
+					as = append(as, scripted(float64(r.Intn(100))))
+				}
+			}
+			b.WriteString(" " + setterNames[k] + ":" + strings.Join(as, ","))
+		}
+		c.Add(b.String(), fmt.Sprintf("sset:steps=%d", steps))
 	}
 	// setter histories
 	limits := []int{1, 2, 3, 4, 1, 2, 3, 1}
